@@ -350,6 +350,11 @@ func (k Keeper) CloseBatchAuction(ctx context.Context, auction types.AuctionI) e
 			return err
 		}
 
+		// Publish the clearing price that was used (it stays zero when nothing is sold)
+		if !mInfo.MatchedPrice.IsNil() {
+			ba.MatchedPrice = mInfo.MatchedPrice
+		}
+
 		if err := k.ApplyVestingSchedules(ctx, auction); err != nil {
 			return err
 		}
@@ -382,6 +387,11 @@ func (k Keeper) CloseBatchAuction(ctx context.Context, auction types.AuctionI) e
 
 	if err := k.RefundPayingCoin(ctx, auction, mInfo); err != nil {
 		return err
+	}
+
+	// Publish the clearing price that was used (it stays zero when nothing is sold)
+	if !mInfo.MatchedPrice.IsNil() {
+		ba.MatchedPrice = mInfo.MatchedPrice
 	}
 
 	if err := k.ApplyVestingSchedules(ctx, auction); err != nil {
